@@ -17,6 +17,10 @@ def run(tier):
     skip = os.path.join(d, "skip.ndjson")
     vf.run_harness(binpath, ["raster", "gen", "--seed", vf.seed(), "--tier", tier, "skip"], stdout_path=skip)
     vf.exec_and_validate(chk, binpath, "raster", "TV_RasterFrag", skip, jvms=8, what="triangle (columns skipped)")
+    # spans and triangles hundreds of pixels long, judged on the fragments' positions
+    long_ = os.path.join(d, "long.ndjson")
+    vf.run_harness(binpath, ["raster", "gen", "--seed", vf.seed(), "--tier", tier, "long"], stdout_path=long_)
+    vf.exec_and_validate(chk, binpath, "raster", "TV_RasterFrag", long_, jvms=4, what="long triangle")
     # growth beyond the statement (DESIGN §8): the Vary stepping iterators the rasteriser is built on;
     # rejections there are notes, not violations of C05
     cfgv = vf.write_cfg(os.path.join(d, "MC_Vary.cfg"), None, invariants=["Laws"])
